@@ -225,3 +225,163 @@ func vpSameCond(got, c interface{}, kind int) bool {
 	}
 	return false
 }
+
+func init() {
+	vpHarnesses["VP_C06_effects"] = VP_C06_effects
+	vpHarnesses["VP_C06_reeval"] = VP_C06_reeval
+}
+
+func vpSmallCond(name string) (interface{}, bool) {
+	switch vpChoice(name, 8) {
+	case 0:
+		return nil, false
+	case 1:
+		return true, true
+	case 2:
+		return false, false
+	case 3:
+		return "", false
+	case 4:
+		return "s", true
+	case 5:
+		return decimal.New(0, 0), false
+	case 6:
+		return decimal.New(15, 1), true
+	}
+	return []interface{}{}, true
+}
+
+// C06/effects: every selection operator evaluates its left operand / condition
+// exactly once and hands back the value that was judged: the operand is a call
+// of a recording host function that returns a different value on every call.
+func VP_C06_effects() {
+	ctx := context.Background()
+	first, truthy := vpSmallCond("c1")
+	calls := 0
+	rcalls := 0
+	data := map[string]interface{}{
+		"next": func() (interface{}, error) {
+			calls++
+			if calls == 1 {
+				return first, nil
+			}
+			return "later", nil
+		},
+		"rhs": func() (interface{}, error) {
+			rcalls++
+			return "R", nil
+		},
+	}
+	texts := []string{"next() && rhs()", "next() || rhs()", "next() ?? rhs()", "next() ? rhs() : 'F'", "next() ? 'T' : rhs()", "!!next()", "(next() && 1, next())"}
+	which := vpChoice("expr", len(texts))
+	code, perr := ParseSourceCode([]byte(texts[which]))
+	vpAssert("C06/effects/parses", perr == nil)
+	if perr != nil {
+		return
+	}
+	r := NewRunner()
+	r.SetThis(data)
+	v, err := r.resolve(ctx, code.Expression)
+	vpObserve("effects", which, calls, rcalls)
+	vpAssert("C06/effects/no-error", err == nil)
+	if which == 6 {
+		vpAssert("C06/effects/each-written-call-runs-once", calls == 2 && vpSame(v, "later"))
+		vpReach("C06/effects/done")
+		return
+	}
+	vpAssert("C06/effects/left-operand-evaluated-once", calls == 1)
+	leftSelected, rightWanted := false, false
+	switch which {
+	case 0:
+		leftSelected, rightWanted = !truthy, truthy
+	case 1:
+		leftSelected, rightWanted = truthy, !truthy
+	case 2:
+		leftSelected, rightWanted = first != nil, first == nil
+	case 3:
+		rightWanted = truthy
+	case 4:
+		rightWanted = !truthy
+	}
+	switch {
+	case which == 5:
+		vpAssert("C06/effects/bangbang-of-the-judged-value", vpSame(v, truthy))
+	case leftSelected:
+		vpAssert("C06/effects/hands-back-the-judged-value", vpSameAny(v, first))
+	case rightWanted:
+		vpAssert("C06/effects/selected-right-operand", vpSame(v, "R") && rcalls == 1)
+	default:
+		vpAssert("C06/effects/unselected-branch-not-run", rcalls == 0)
+	}
+	if which >= 3 && which <= 4 && !rightWanted {
+		vpAssert("C06/effects/unselected-branch-not-run", rcalls == 0)
+	}
+	vpReach("C06/effects/done")
+}
+
+func vpSameAny(got, want interface{}) bool {
+	if w, ok := want.([]interface{}); ok {
+		g, ok2 := got.([]interface{})
+		return ok2 && len(g) == len(w)
+	}
+	return vpSame(got, want)
+}
+
+// C06/reeval: one parsed tree evaluated against two different data maps: the
+// second evaluation follows the second map's truthiness (nothing about a
+// condition may be remembered in the tree or the package).
+func VP_C06_reeval() {
+	ctx := context.Background()
+	c1, _ := vpSmallCond("c1")
+	c2, t2 := vpSmallCond("c2")
+	texts := []string{"this.c ? 'T' : 'F'", "c ? 'T' : 'F'", "this.c && 'R'", "this.c || 'R'", "!!this.c", "typeof this.c === 'string' ? 'S' : 'N'", "(this.c ?? 'D') === 'D'", "this.m.c ? 'T' : 'F'"}
+	which := vpChoice("expr", len(texts))
+	code, perr := ParseSourceCode([]byte(texts[which]))
+	vpAssert("C06/reeval/parses", perr == nil)
+	if perr != nil {
+		return
+	}
+	sameRunner := vpBool("sameRunner")
+	r := NewRunner()
+	r.SetThis(map[string]interface{}{"c": c1, "m": map[string]interface{}{"c": c1}})
+	r.resolve(ctx, code.Expression)
+	if !sameRunner {
+		r = NewRunner()
+	}
+	r.SetThis(map[string]interface{}{"c": c2, "m": map[string]interface{}{"c": c2}})
+	v, err := r.resolve(ctx, code.Expression)
+	vpObserve("reeval", which, vpShowValue(v))
+	vpAssert("C06/reeval/no-error", err == nil)
+	_, isStr := c2.(string)
+	switch which {
+	case 0, 1, 7:
+		want := "F"
+		if t2 {
+			want = "T"
+		}
+		vpAssert("C06/reeval/conditional-follows-current-data", vpSame(v, want))
+	case 2:
+		if t2 {
+			vpAssert("C06/reeval/and-follows-current-data", vpSame(v, "R"))
+		} else {
+			vpAssert("C06/reeval/and-follows-current-data", vpSameAny(v, c2))
+		}
+	case 3:
+		if !t2 {
+			vpAssert("C06/reeval/or-follows-current-data", vpSame(v, "R"))
+		} else {
+			vpAssert("C06/reeval/or-follows-current-data", !vpSame(v, "R"))
+		}
+	case 4:
+		vpAssert("C06/reeval/bangbang-follows-current-data", vpSame(v, t2))
+	case 5:
+		want := "N"
+		if isStr {
+			want = "S"
+		}
+		vpAssert("C06/reeval/typeof-follows-current-data", vpSame(v, want))
+	case 6:
+		vpAssert("C06/reeval/coalesce-follows-current-data", vpSame(v, c2 == nil))
+	}
+	vpReach("C06/reeval/done")
+}
